@@ -23,7 +23,7 @@ pub fn prop() -> Prop {
         "Cases: a seed-determined workload of inputs (valid generated schemas; the same with token/text mutations; \
          grammatical but semantically arbitrary documents, plain and mutated; an operation document validated against a \
          generated valid schema; operations with several unused / undefined variables and fragments against a generated schema; files of apollo-compiler/test_data, plain and mutated; apollo-smith byte strings), each \
-         regenerated and processed in N fresh processes (quick: 2000 inputs x 4 processes, thorough: 20000 x 16) with per-process hash keys. Oracle: for \
+         regenerated and processed in N fresh processes (quick: 6000 inputs x 4 processes, thorough: 30000 x 16) with per-process hash keys. Oracle: for \
          every input and every observable part (AST serialization and parse errors, Schema serialization, \
          ExecutableDocument serialization, DiagnosticList Display text in order, to_json of every diagnostic, full \
          introspection JSON of valid schemas, apollo-smith output) all processes print the same FNV digest. \
@@ -504,7 +504,7 @@ pub fn check_input(bytes: &[u8], ctx: &mut Ctx) -> Outcome {
 
 fn custom(cfg: &RunCfg) -> CustomReport {
     let mut rep = CustomReport::new();
-    let (count, procs): (u64, usize) = if cfg.tier == Tier::Quick { (2000, 4) } else { (20_000, 16) };
+    let (count, procs): (u64, usize) = if cfg.tier == Tier::Quick { (6000, 4) } else { (30_000, 16) };
     let count = std::env::var("VERIF_C22_COUNT").ok().and_then(|s| s.parse().ok()).unwrap_or(count);
     // every process regenerates the whole workload; a process is split into `slices` children so that
     // the machine is used, and every (process, slice) child is a fresh process with fresh keys
